@@ -1,6 +1,6 @@
 SPECIFICATION Spec
 CONSTANTS
-  NGood = 21
+  NGood = 22
   NFail = 0
   MaxLen = 8
   MinFail = 0
